@@ -600,7 +600,7 @@ class RepeatedlyMeasuredValue(MeasuredValue):
             "You are trying to override the value calculated from an array of repeated "
             "measurements. This value is now considered a single Measurement.")
         self.__class__ = MeasuredValue
-        self._value = new_value
+        self._value = float(new_value)  # stored as a float, as MeasuredValue.value does
 
     @property
     def raw_data(self):
